@@ -166,6 +166,20 @@ class Origins:
                 v = d.value
             elif d.kind == "unpack" and isinstance(d.value, (ast.Tuple, ast.List)) and len(d.path) == 1 and isinstance(d.path[0], int) and d.path[0] < len(d.value.elts):
                 v = d.value.elts[d.path[0]]
+            hops = 0
+            while isinstance(v, ast.Name) and hops < 6:
+                # a copy of a record built elsewhere (result variable of an expanded helper, an alias): follow the single definition
+                ds2 = self.cfg.defs_of(vat, v.id)
+                if len(ds2) != 1:
+                    return None
+                d2 = ds2[0]
+                if d2.kind in ("assign", "walrus"):
+                    v, vat = d2.value, d2.node
+                elif d2.kind == "unpack" and isinstance(d2.value, (ast.Tuple, ast.List)) and len(d2.path) == 1 and isinstance(d2.path[0], int) and d2.path[0] < len(d2.value.elts):
+                    v, vat = d2.value.elts[d2.path[0]], d2.node
+                else:
+                    return None
+                hops += 1
             if not (isinstance(v, ast.Call) and isinstance(v.func, (ast.Name, ast.Attribute))):
                 return None
             q = self.repo.resolve_expr(self.L.mi, v.func)
